@@ -54,7 +54,8 @@ def line(fields):
 
 class C14(Property):
     id = "C14"
-    lean_module = "RosuModel.Props.C14Grammar"   # imports Props/C14Split.lean → Props/C14.lean and Lemmas/HoGrammar*.lean; all in namespace Rosu.C14 (the grammar in Rosu.C14.HoSpec)
+    lean_module = "RosuModel.Props.C14Full"   # imports Props/C14Split.lean → Props/C14.lean and Lemmas/HoGrammar*.lean; all in namespace Rosu.C14 (the grammar in Rosu.C14.HoSpec)
+    theorem_modules = ['RosuModel.Props.C14Grammar', 'RosuModel.Props.C14Ieee']   # files whose top-level theorems are all audited
     namespace = "Rosu.C14"
     design_ref = "5.14"
     required_theorems = ["kind_precedence", "maskedType_bits", "unknown_type_rejected", "bad_header_rejected", "accepted_pushes_one",
